@@ -1328,3 +1328,128 @@ theorem retry_publish {chk : Nat → Nat → Bool} {s s' : State} (hI : Inv chk 
     · simp [Local.feedLoad, hpc, hval, h1]; omega
 
 end Woodpile.Abt.RA
+
+/-! ## Track abt2: statement-strength additions (claim audit gaps 7, 10, 18) -/
+
+namespace Woodpile.Abt.RA
+
+theorem run_append (chk : Nat → Nat → Bool) (l1 l2 : List Label) : ∀ (s : State),
+    run chk s (l1 ++ l2) = (match run chk s l1 with | some s1 => run chk s1 l2 | none => none) := by
+  induction l1 with
+  | nil => intro s; simp [run]
+  | cons l ls ih =>
+    intro s
+    simp only [List.cons_append, run]
+    cases step chk s l with
+    | none => rfl
+    | some s1 => exact ih s1
+
+theorem reachable_run {chk : Nat → Nat → Bool} {v0 : Nat} {s s' : State} (h : Reachable chk v0 s)
+    (ls : List Label) (hr : run chk s ls = some s') : Reachable chk v0 s' := by
+  obtain ⟨l0, h0⟩ := h
+  exact ⟨l0 ++ ls, by rw [run_append, h0]; exact hr⟩
+
+theorem reachable_step {chk : Nat → Nat → Bool} {v0 : Nat} {s s' : State} (h : Reachable chk v0 s)
+    (l : Label) (hs : step chk s l = some s') : Reachable chk v0 s' :=
+  reachable_run h [l] (by simp [run, hs])
+
+/-- `retry_publish` plus: the sequence message the failed iteration was based on is not older
+than the reader's view of `sequence` when the snapshot began, so the newer message `ts` lies
+strictly beyond everything that happened-before the start of the snapshot; a retry does not
+move `start`. -/
+theorem retry_publish_during {chk : Nat → Nat → Bool} {s s' : State} (hI : Inv chk s) (t ts : Nat)
+    (hpc : (s.thr t).loc.pc = .sSeq2) (hs : step chk s (.run t ts) = some s')
+    (hretry : (s'.thr t).loc.pc = .sV) :
+    s.start t ≤ (s.thr t).loc.sq ∧ (s.thr t).loc.sq < ts ∧ ts < (s.mem .seq).length ∧
+    (s'.thr t).loc.sq = ts ∧ s'.mem = s.mem ∧ s'.start t = s.start t := by
+  obtain ⟨h1, h2, h3, h4⟩ := retry_publish hI t ts hpc hs hretry
+  have hrd := (hI.t t).rd
+  simp only [RInv, hpc] at hrd
+  refine ⟨hrd.1, h1, h2, h3, h4, ?_⟩
+  simp only [step, Local.next, hpc] at hs
+  cases hm : (s.mem .seq)[ts]? <;> simp only [hm] at hs
+  · simp at hs
+  · split at hs <;> simp at hs
+    subst hs; rfl
+
+/-- The reader `t` run alone for `k` steps: its `j`-th load (counting from `j0`) reads the
+message with timestamp `pick j s` (an arbitrary, possibly adversarial, reads-from strategy that
+may look at the step number and the whole machine state). -/
+def solo (chk : Nat → Nat → Bool) (t : Nat) (pick : Nat → State → Nat) : Nat → Nat → State → Option State
+  | _, 0, s => some s
+  | j, k + 1, s =>
+    match step chk s (.run t (pick j s)) with
+    | some s' => solo chk t pick (j + 1) k s'
+    | none => none
+
+/-- `pick` only ever proposes messages the reader is allowed to read (at or after its view of
+the location, and already written) - in every reachable state in which `t` is inside `snapshot`. -/
+def Admissible (chk : Nat → Nat → Bool) (v0 : Nat) (t : Nat) (pick : Nat → State → Nat) : Prop :=
+  ∀ (j : Nat) (s : State), Reachable chk v0 s → (s.thr t).loc.pc.inSnap = true →
+    ∀ l o, (s.thr t).loc.next = .load l o → (s.thr t).view l ≤ pick j s ∧ pick j s < (s.mem l).length
+
+/-- A solo run is a run of the machine under the schedule "`t`, `k` times". -/
+theorem solo_is_run (chk : Nat → Nat → Bool) (t : Nat) (pick : Nat → State → Nat) (k : Nat) :
+    ∀ (j : Nat) (s s' : State), solo chk t pick j k s = some s' →
+      ∃ tss : List Nat, tss.length = k ∧ run chk s (tss.map (.run t ·)) = some s' := by
+  induction k with
+  | zero => intro j s s' h; simp [solo] at h; subst h; exact ⟨[], rfl, rfl⟩
+  | succ k ih =>
+    intro j s s' h
+    simp only [solo] at h
+    cases hst : step chk s (.run t (pick j s)) with
+    | none => simp [hst] at h
+    | some s1 =>
+      simp only [hst] at h
+      obtain ⟨tss, hl, hr⟩ := ih (j + 1) s1 s' h
+      exact ⟨pick j s :: tss, by simp [hl], by simp [run, hst, hr]⟩
+
+/-- The strategy "always read the latest message" (what a machine with a single copy of
+memory does). -/
+def pickLatest (t : Nat) : Nat → State → Nat := fun _ s =>
+  match (s.thr t).loc.next with
+  | .load l _ => (s.mem l).length - 1
+  | _ => 0
+
+theorem pickLatest_admissible {chk : Nat → Nat → Bool} {v0 : Nat} (h0 : chk 0 v0 = true) (t : Nat) :
+    Admissible chk v0 t (pickLatest t) := by
+  intro j s hs _ l o hnx
+  have hT := (inv_reachable h0 hs).t t
+  have := hT.wfv l
+  simp only [pickLatest, hnx]
+  omega
+
+/-- Uniform termination on the view machine: whatever admissible messages the reader is made
+to read, it returns within `soloMeasure` own steps, memory untouched. -/
+theorem solo_terminates {chk : Nat → Nat → Bool} {v0 : Nat} (h0 : chk 0 v0 = true) (t : Nat)
+    (pick : Nat → State → Nat) (hadm : Admissible chk v0 t pick) (m : Nat) :
+    ∀ (j : Nat) (s : State), Reachable chk v0 s → (s.thr t).loc.pc.inSnap = true → soloMeasure s t ≤ m →
+      ∃ k, k ≤ m ∧ ∃ s', solo chk t pick j k s = some s' ∧ (s'.thr t).loc.pc = .retSnap ∧ s'.mem = s.mem := by
+  induction m with
+  | zero =>
+    intro j s _ hpc hm
+    have := soloMeasure_pos hpc
+    omega
+  | succ m ih =>
+    intro j s hs hpc hm
+    have hI := inv_reachable h0 hs
+    obtain ⟨l, o, hnx⟩ := (snapshot_no_lock_aux chk _ hpc).1
+    have ha := hadm j s hs hpc l o hnx
+    have hne : step chk s (.run t (pick j s)) ≠ none := by
+      rw [Ne, step_none_iff]
+      intro h
+      rcases h with h | ⟨h, _⟩ | ⟨l', o', h, hbad⟩
+      · rw [hnx] at h; cases h
+      · simp [Local.next, h] at hnx
+      · rw [hnx] at h; injection h with h1 h2; subst h1
+        exact hbad ha
+    cases hst : step chk s (.run t (pick j s)) with
+    | none => exact absurd hst hne
+    | some s1 =>
+      obtain ⟨hmem, hlt, hor⟩ := solo_step hI t _ hpc hst
+      rcases hor with hret | hin
+      · exact ⟨1, by omega, s1, by simp [solo, hst], hret, hmem⟩
+      · obtain ⟨k, hk, s', hsolo, hret, hmem'⟩ := ih (j + 1) s1 (reachable_step hs _ hst) hin (by omega)
+        exact ⟨k + 1, by omega, s', by simp [solo, hst, hsolo], hret, by rw [hmem', hmem]⟩
+
+end Woodpile.Abt.RA
